@@ -175,7 +175,7 @@ def loops_correspondence(ctx):
     count = 150 if ctx.is_quick else 2000
     for name, gen, fn in (("CoreSet", coreset_cases, "check_coreset"), ("ProbCover", probcover_cases, "check_probcover"),
                           ("Clue/DiscriminativeAL", oracle_loop_cases, "check_oracle_loop"), ("GreedySamplingX", gsx_cases, "check_gsx"),
-                          ("TypiClust", typiclust_cases, "check_typiclust")):
+                          ("TypiClust", typiclust_cases, "check_typiclust"), ("Badge", badge_cases, "check_sampling")):
         terms, meta = gen(ctx, count)
         bad, err = ctx.coq_eval_cases("loop_" + fn, IMPORTS, fn, terms, chunk=100)
         if err:
@@ -441,4 +441,83 @@ def typiclust_cases(ctx, count):
         ctx.hist["typiclust:" + ("raised" if obs is None else ("duplicates" if len(set(obs[0])) < len(obs[0]) else "valid"))] += 1
         if k >= 2:
             ctx.nontriv(("typiclust", x.tobytes(), y.tobytes(), labels.tobytes(), repr(meta[-1]["candidates"]), bs, seed))
+    return terms, meta
+
+
+# ---------------------------------------------------------------------------------------------
+# Badge: the zeroing of earlier picks / fallback to ones / NaN marking around the D^2 weights.  The numeric layer
+# (_d_2) is recorded from outside (module attribute replaced by a recording wrapper), the draws of
+# random_state.choice are taken from the returned indices (oracle with the contract "positive mass").
+def badge_cases(ctx, count):
+    import skactiveml.pool._badge as B
+    from skactiveml.pool import Badge
+    from . import poolreg as R
+    from .core import fkey
+    rng = ctx.rng("badge")
+    terms, meta = [], []
+    orig = B._d_2
+    for h in range(count):
+        n = int(rng.integers(3, 10))
+        X = rng.integers(0, 3, size=(n, 2)).astype(float)            # integer grid: duplicated points -> zero distances
+        if rng.random() < 0.3:
+            X[:, :] = X[0]                                            # all points equal: the all-zero fallback from the first step
+        y = np.where(rng.random(n) < rng.choice([0.0, 0.3, 0.6]), float(rng.integers(0, 2)), np.nan)
+        if not np.isnan(y).any():
+            y[int(rng.integers(0, n))] = np.nan
+        unl = [int(i) for i in np.flatnonzero(np.isnan(y))]
+        cmode = str(rng.choice(["none", "idx", "feat"]))
+        if cmode == "none":
+            cand, cmap, width = None, unl, n
+        elif cmode == "idx":
+            sub = sorted(int(i) for i in rng.choice(unl, size=int(rng.integers(1, len(unl) + 1)), replace=False))
+            cand, cmap, width = np.array(sub), sub, n
+        else:
+            m_ = int(rng.integers(1, 6))
+            cand = X[rng.integers(0, n, size=m_)].copy()
+            cmap, width = list(range(m_)), m_
+        m = len(cmap)
+        bs = int(rng.integers(1, m + 2))
+        k = min(bs, m)
+        seed = int(rng.integers(0, 1000))
+        rec = []
+
+        def recording(g_x, query_indices, d_latest=None):
+            out = orig(g_x, query_indices, d_latest)
+            rec.append(np.array(out, dtype=float).copy())
+            return out
+        B._d_2 = recording
+        try:
+            with warnings.catch_warnings():
+                warnings.simplefilter("ignore")
+                idx, ut = Badge(random_state=seed).query(X, y, clf=R._clf_alt([0, 1], seed), candidates=cand, batch_size=bs, return_utilities=True)
+        except Exception as e:
+            ctx.violation("Badge", "exception:" + type(e).__name__, repr(e)[:300],
+                          {"X": X.tolist(), "y": [None if v != v else v for v in y], "candidates": None if cand is None else np.asarray(cand).tolist(), "batch_size": bs, "seed": seed},
+                          what=f"Badge.query raised {type(e).__name__}")
+            continue
+        finally:
+            B._d_2 = orig
+        idx = [int(i) for i in np.asarray(idx).ravel()]
+        ut = np.asarray(ut, dtype=float)
+        rcd = {"strategy": "Badge", "X": X.tolist(), "y": [None if v != v else v for v in y], "candidates_mode": cmode,
+               "candidates": None if cand is None else np.asarray(cand).tolist(), "batch_size": bs, "seed": seed, "returned_indices": idx}
+        if len(rec) != k or len(idx) != k or ut.shape != (k, width) or not set(idx) <= set(cmap):
+            ctx.violation("Badge", "batch_length", f"{len(idx)} indices / utilities {ut.shape} / {len(rec)} weight vectors for batch size {k}", rcd,
+                          what=f"Badge: {len(idx)} indices, utilities of shape {ut.shape}, expected {k} x {width}")
+            continue
+        if np.any(~np.isnan(np.delete(ut, cmap, axis=1))):
+            ctx.violation("Badge", "nan_pattern", "numbers at non-candidates", rcd, what="Badge: utilities at non-candidates are not NaN")
+            continue
+        picks = [cmap.index(i) for i in idx]
+        raws = []
+        for r in rec:
+            keys = rank_keys([fkey(v) for v in r])
+            raws.append(zlist([0 if v is None else v for v in keys]))
+        rows = listlit([listlit(["None" if v != v else ("(Some 1)" if v > 0 else "(Some 0)") for v in ut[i, cmap]]) for i in range(k)])
+        terms.append(f"({listlit(raws)}, {natlist(picks)}, {rows}, true)")
+        meta.append(rcd)
+        ctx.count("badge_loop_correspondence")
+        ctx.hist[f"badge:{cmode}:" + ("fallback" if any(not np.any(r > 0) for r in rec) else "weights")] += 1
+        if k >= 2:
+            ctx.nontriv(("badge", X.tobytes(), y.tobytes(), cmode, repr(rcd["candidates"]), bs, seed))
     return terms, meta
